@@ -15,8 +15,9 @@ variable (σ : St) (t : Nat)
 @[simp] theorem afterNotify_log (k : Nat) : (afterNotify σ t k).log = σ.log := log_of_ring (afterNotify_ring σ t k)
 @[simp] theorem startNotify_log (k : Nat) : (startNotify σ t k).log = σ.log := log_of_ring (startNotify_ring σ t k)
 @[simp] theorem teardownStart_log (r : Res) : (teardownStart σ t r).log = σ.log := log_of_ring (teardownStart_ring σ t r)
-@[simp] theorem recvDropEnd_log (x : Th) (f : List Ord) : (stepRun.recvDropEnd σ t x f).log = σ.log :=
-  log_of_ring (recvDropEnd_ring σ t x f)
+@[simp] theorem mgrDone_log (k : MK) : (mgrDone σ t k).log = σ.log := log_of_ring (mgrDone_ring σ t k)
+@[simp] theorem freeTail_log (k : MK) : (freeTail σ t k).log = σ.log := log_of_ring (freeTail_ring σ t k)
+@[simp] theorem freeEnd_log (k : MK) : (freeEnd σ t k).log = σ.log := log_of_ring (freeEnd_ring σ t k)
 @[simp] theorem startNotify2_log : (stepRun.startNotify2 σ t).log = σ.log := log_of_ring (startNotify2_ring σ t)
 @[simp] theorem goto_log (pc : PC) : (σ.goto t pc).log = σ.log := rfl
 @[simp] theorem gotoF_log (pc : PC) (f : List Ord) : (σ.gotoF t pc f).log = σ.log := rfl
@@ -38,7 +39,7 @@ theorem stepRun_log (σ : St) (t inp : Nat) :
   all_goals (repeat' split)
   all_goals first
     | (left; simp only [sendDone_log, recvDone_log, checkDone_log, startWait_log, afterNotify_log, startNotify_log,
-        teardownStart_log, recvDropEnd_log, startNotify2_log, goto_log, gotoF_log, setTh_log, flush_log, setHd_log,
+        teardownStart_log, mgrDone_log, freeTail_log, freeEnd_log, startNotify2_log, goto_log, gotoF_log, setTh_log, flush_log, setHd_log,
         stepLa2_log]; done)
     | (right; simp only [goto_log, gotoF_log, setTh_log, flush_log, setHd_log]; done)
     | (left; rfl)
